@@ -493,6 +493,8 @@ if __name__ == "__main__":
             "mixture weights are generated with sum exactly 1 or off by >= 2^-10 (numpy accepts |sum-1| <= 2^-26)",
             "field order of the output dict follows Python's set order and is not compared",
             "blend(non-list) -> TypeError is checked in Python only",
+            "weights dict keys are drawn from a pool in random / reverse-sorted INSERTION order (rows follow insertion "
+            "order, never key order)",
         ],
         trusted=["numpy matmul / boolean-mask assignment semantics as modelled (Model/Blend.lean)",
                  "np.atleast_2d / np.concatenate / transpose on weight dict values as modelled (weightList)"],
